@@ -245,6 +245,11 @@ func (b *ReadaheadBlob) Stat() (core.BlobInfo, error) {
 //
 // TODO: we might want to optimize this by duplicating the bufio logic here.
 func (b *ReadaheadBlob) Seek(offset int64, whence int) (int64, error) {
+	if whence == os.SEEK_CUR {
+		// The underlying blob's offset is ahead of the position the caller has
+		// read up to by the amount of prefetched data still in the buffer.
+		offset -= int64(b.bufBlob.Buffered())
+	}
 	// Discard the buffer.
 	b.bufBlob.Reset(b.b)
 	return b.b.Seek(offset, whence)
